@@ -20,6 +20,7 @@ from pyvc.spec import Contract
 CONTRACTS = []
 TREE = ["Tree", "TreeSet"]
 NODE_PROPS = ["C03", "C04"]
+NODE_PROPS_SET = []     # the insertion side: attached once the proofs are complete
 
 
 def C(*a, **k):
@@ -44,6 +45,7 @@ def wf(pre=""):
         "kind": "cls_id(" + c(0) + ") == cls_id(self) or cls_id(" + c(0) + ") == bucket_cls_of(self)",
         "distinct": "forall(0, " + N + ", lambda i, j: implies(i < j, " + c("i") + " is not " + c("j") + " and self._data[i] is not self._data[j]))",
         "first": "self._firstbucket is fst(" + c(0) + ")",
+        "kids_first": "forall(0, " + N + ", lambda i: implies(is_tree(" + c("i") + "), " + c("i") + "._firstbucket is fst(" + c("i") + ")))",
         "chain": "forall(0, " + N + " - 1, lambda i: succ(" + c("i") + ") is fst(" + c("i + 1") + "))",
         "subtrees": "forall(0, " + N + ", lambda i: wfsub(" + c("i") + "))",
         "leaves": "forall(0, " + N + ", lambda i: implies(is_leaf(" + c("i") + "), sorted_strict(" + c("i") + "._keys) and "
@@ -51,11 +53,12 @@ def wf(pre=""):
                   + c("i") + "._keys is not " + c("i") + "._values)))",
         # shape of the heap: every node owns its list objects
         "own_list": "forall(0, " + N + ", lambda i: (" + c("i") + "._data is not self._data) if is_tree(" + c("i") + ") else "
-                    "(" + c("i") + "._keys is not self._data and " + c("i") + "._values is not self._data))",
+                    "(" + c("i") + "._keys is not self._data and implies(is_cls(" + c("i") + ", 'Bucket'), " + c("i") + "._values is not self._data)))",
         "own_lists_kids": "forall(0, " + N + ", lambda i, j: implies(i < j, "
                           "(" + c("i") + "._data is not " + c("j") + "._data) if is_tree(" + c("i") + ") else "
-                          "(" + c("i") + "._keys is not " + c("j") + "._keys and " + c("i") + "._keys is not " + c("j") + "._values and "
-                          + c("i") + "._values is not " + c("j") + "._keys and " + c("i") + "._values is not " + c("j") + "._values)))",
+                          "(" + c("i") + "._keys is not " + c("j") + "._keys and implies(is_cls(" + c("i") + ", 'Bucket'), "
+                          + c("i") + "._keys is not " + c("j") + "._values and "
+                          + c("i") + "._values is not " + c("j") + "._keys and " + c("i") + "._values is not " + c("j") + "._values))))",
     }
 
 
@@ -131,4 +134,79 @@ C("_Tree._del#struct", cls=TREE, params={"key": "K"}, returns=DEL_RET,
          "chain_post": True, "heavy": True,
          "uses": {"*:raises-only*": ["post:_Tree._search#struct:*", "post:*size:*", "unfold:*", "req:*"],
                   "*:post:subtree_ok": ["newpost:wf_*"]}},
+  props=NODE_PROPS)
+
+
+# ---------------------------------------------------------------------------
+# insertion and splitting
+DERIVE_OBJ = {"texts": {"$fst": DERIVE["$fst"], "$succ": DERIVE["$succ"]}, "wf": {k: "implies(" + N + " > 0, " + v + ")" for k, v in WF.items()},
+              "extra": "implies(" + N + " == 0, self._firstbucket is None)"}
+SET_RET = [("tuple", ["none", "V"]), ("tuple", ["int", "V"]), ("tuple", ["bool", "none"])]
+WF_ENS = {"wf_" + k: "implies(" + N + " > 0, " + v + ")" for k, v in WF.items()}
+LAW_ENS = {k: "implies(" + N + " > 0, " + v + ")" for k, v in LAW.items()}
+RWF = {k: v.replace("self", "result") for k, v in WF.items()}
+COMMON_GHOST = {"derive": DERIVE, "derive_obj": DERIVE_OBJ, "no_frame": True, "prune_dispatch": True, "chain_post": True, "heavy": True,
+                "no_compare": True,
+                "uses": {"*:raises-only*": ["post:_Tree._search#struct:*", "post:*size:*", "unfold:*", "req:*"],
+                         "*:post:subtree_ok": ["newpost:wf_*", "newpost:nonempty"], "*:post:result_ok": ["newpost:rwf_*"]}}
+
+
+def G(**kw):
+    d = dict(COMMON_GHOST)
+    d.update(kw)
+    return d
+
+
+C("_Tree._split#struct", cls=TREE, params={"index": ["none"]}, returns="ref",
+  requires={"wf": "wfsub(self)", "two_or_more": N + " >= 2"},
+  ensures=dict(WF_ENS, **dict({"rwf_" + k: v for k, v in RWF.items()}, **{
+      "new_node": "fresh(result) and cls_id(result) == cls_id(self) and fresh(result._data) and result._data is not self._data",
+      "halves": "len(self._data) == old(len(self._data)) // 2 and len(result._data) == old(len(self._data)) - old(len(self._data)) // 2 and "
+                "self._data is old(self._data)",
+      "left_children": "forall(0, " + N + ", lambda i: self._data[i] is old(self._data[i]))",
+      "right_children": "forall(0, len(result._data), lambda i: result._data[i] is old(self._data[i + len(self._data) // 2]))",
+      "first_same": "fst(self) is old(fst(self)) and self._firstbucket is old(self._firstbucket)",
+      "result_first_leaf": "fst(result) is old(fst(self._data[len(self._data) // 2].child)) and fst(result) is not None",
+      "result_first_bucket": "result._firstbucket is fst(result)",
+      "left_last": "succ(self) is old(succ(self._data[len(self._data) // 2 - 1].child))",
+      "linked": "succ(self) is fst(result)",
+      "successor_moved": "succ(result) is old(succ(self))",
+      "subtree_ok": "wfsub(self)",
+      "result_ok": "wfsub(result)",
+  })),
+  modifies=NODE_MOD, ghost=G(of="_Tree._split", derive_result="rwf_", allocates=True),
+  props=NODE_PROPS)
+
+FIRST_SAME = "fst(self) is old(fst(self)) and self._firstbucket is old(self._firstbucket)"
+ITEMS_SAME = ("len(self._data) == old(len(self._data)) and self._firstbucket is old(self._firstbucket) and "
+              "forall(0, " + N + ", lambda i: self._data[i] is old(self._data[i]) and self._data[i].key == old(self._data[i].key))")
+
+C("_Tree._grow#struct", cls=TREE, params={"child": "ref", "index": "int"}, returns="none",
+  requires={"wf": "wfsub(self)", "the_child": "0 <= index and index < " + N + " and child is " + c("index"),
+            "splittable": "nsize(child) >= 2"},
+  ensures=dict(WF_ENS, nonempty=N + " > 0", **dict(LAW_ENS, first_same=FIRST_SAME, successor_kept="succ(self) is old(succ(self))",
+               registered="changed(self)", subtree_ok="wfsub(self)")),
+  modifies=NODE_MOD, ghost=G(of="_Tree._grow", refresh_before={"_split_root": ["self"]}, allocates=True),
+  props=NODE_PROPS)
+
+C("_Tree._split_root#struct", cls=TREE, params={}, returns="none",
+  requires={"wf": "wfsub(self)", "two_or_more": N + " >= 2"},
+  ensures=dict(WF_ENS, nonempty=N + " > 0", **dict(LAW_ENS, first_same=FIRST_SAME, successor_kept="succ(self) is old(succ(self))",
+               registered="changed(self)", subtree_ok="wfsub(self)")),
+  modifies=NODE_MOD, ghost=G(of="_Tree._split_root", refresh_before={"_grow": ["child", "self"]}, allocates=True),
+  props=NODE_PROPS)
+
+C("_Tree._set#struct", cls=TREE, params={"key": "K", "value": ["none", "V"], "ifunset": "bool"}, returns=SET_RET,
+  requires={"wf": "wfsub(self)",
+            # class configuration (DESIGN 5.3, I7): node sizes are at least 1 (the shipped ones are 30..120; the C
+            # implementation rejects non-positive ones), otherwise a split would leave an empty half
+            "node_sizes": "max_leaf_size >= 1 and max_internal_size >= 1"},
+  ensures=dict(WF_ENS, nonempty=N + " > 0", **dict(LAW_ENS,
+               first_same="implies(old(len(self._data)) > 0, " + FIRST_SAME + " and succ(self) is old(succ(self)))",
+               first_created="implies(old(len(self._data)) == 0, fresh(fst(self)) and succ(self) is None and self._firstbucket is fst(self))",
+               registered="changed(self) or (" + ITEMS_SAME + ")",
+               embedded_leaf_registered="implies(result[0] is not None and " + N + " == 1 and is_leaf(" + c(0) + ") and " + c(0) + "._p_oid is None, changed(self))",
+               subtree_ok="wfsub(self)")),
+  raises={"*": {}},
+  modifies=NODE_MOD, ghost=G(of="_Tree._set", refresh_before={"_grow": ["self"]}, allocates=True, raise_modifies=True),
   props=NODE_PROPS)
